@@ -315,6 +315,10 @@ func runC07Contract(s *kernel.Sim) {
 		}
 		time.Sleep(time.Millisecond) // nonces are clock readings
 		openGates(i, false)
+		if dropAt > i && (answerAt >= 0 || eventsFlowAt >= 0) && s.Choose("losenow", 3) == 0 {
+			// connections fail while things are in flight on them, not while they are idle
+			dropAt = i
+		}
 		if i == dropAt {
 			if g := s.Choose("resubslow", 4); g > 0 {
 				// the new subscription takes a while (reconnect): it exists g operations from now
@@ -389,7 +393,7 @@ func runC07Contract(s *kernel.Sim) {
 				break
 			}
 			backend.setGate("call", nil)
-			answerAt = i + 1 + s.Choose("answerin", 3)
+			answerAt = i + 1 + s.Choose("answerin", 6)
 			s.Fault("slow_answer_to_a_balance_query")
 			s.Event("#%d pool_account(W%d): the chain's answer is on its way", i, w)
 		case op == 13: // events are slow to arrive
